@@ -119,6 +119,8 @@ POSITIONS = {
     "mapv_value": "literal",
     "mapv_default": "literal",
     "coalesce": "literal",
+    "concat_op": "literal",  # string constant as operand of the concat operator (%+% / .concat())
+    "if_else_lit": "literal",  # string constant as a branch of if_else
     "colname": "name",
     "colname_new": "name",
     "tablename": "name",
@@ -199,6 +201,14 @@ def build(base: str, s: str) -> Scenario:
         return Scenario(
             ops, {"qt": (["qk", "qn"], [[1, None], [2, "nn"]])}, ["qk", "qn", "qc"], [[1, None, s], [2, "nn", "nn"]]
         )
+    if base == "concat_op":
+        td = TableDescription(table_name="qt", column_names=["qk", "qs"])
+        ops = td.extend({"qc": col("qs").concat(Value(s))})
+        return Scenario(ops, {"qt": (["qk", "qs"], uv)}, ["qk", "qs", "qc"], [[1, "u", "u" + s], [2, "v", "v" + s]])
+    if base == "if_else_lit":
+        td = TableDescription(table_name="qt", column_names=["qk", "qs"])
+        ops = td.extend({"qc": (col("qs") == Value("u")).if_else(Value(s), Value("other"))})
+        return Scenario(ops, {"qt": (["qk", "qs"], uv)}, ["qk", "qs", "qc"], [[1, "u", s], [2, "v", "other"]])
     if base == "colname":
         td = TableDescription(table_name="qt", column_names=["qk", s])
         ops = td.extend({"qz": col(s)}).select_columns([s, "qz"]).order_rows([s])
